@@ -7,6 +7,11 @@ VERIF = os.path.dirname(os.path.dirname(os.path.abspath(__file__)))
 
 # id -> (level, technique, level text, level note, design ref)
 CLAIMED = {
+    "C39": ("exploration",
+            "deterministic simulation: seeded sets of connection handles dropped in seeded orders (with graceful_shutdown) while slow handlers are in flight; peer-observed EOF compared with handle lifetime",
+            "Side A holds clones, streams, proxies (with and without a property-cache task), a signal stream and an InterfaceRef plus in-flight handlers sleeping on the simulated clock; the director drops them in a seeded order with a seeded number of scheduler steps in between. The raw peer must see EOF by quiescence iff every handle is gone, never earlier, after the replies of all started handlers; graceful_shutdown must complete iff everything else is gone and write nothing afterwards.",
+            "The simulated socket closes when both halves are dropped (as the real Arc-shared socket does).",
+            "DESIGN.md §3 C39"),
     "C30": ("exploration",
             "deterministic simulation: handlers that re-enter the object server, and calls issued at the earliest step after on-demand server creation; deadlock = quiescence with an unanswered call (no watchdog)",
             "Method handlers, a property getter and a property setter that register/remove objects and emit signals are driven by 1..2 real client tasks; in the lazy variant the clients start exactly when object_server().at() has returned (single scheduler steps). The simulated world is closed, so a deadlock or a lost subscription is decided exactly as quiescence with an open call.",
